@@ -16,6 +16,9 @@ from .vloop import CLOCK, CURRENT_CALL
 
 logging.getLogger("repid").setLevel(100)
 
+import contextvars
+
+WNO: contextvars.ContextVar = contextvars.ContextVar("verif_worker_no", default=0)
 SLACK_US = int((5.0 + 1.0 + 1.0) * 1e6)   # consumer finish timeout + health server timeout + 1 s
 
 
@@ -54,7 +57,7 @@ class WorkerRecorder(Recorder):
         self.exec_log: list = []
 
     def cons_extra(self) -> dict:
-        return {"w": self.worker_no}
+        return {"w": WNO.get() or self.worker_no}
 
     def consume_extra(self, i, key, payload, params) -> dict:
         self.last_params[i] = params
@@ -155,10 +158,12 @@ async def run_worker(loop, sc: dict, make=None, projector=inmem_projector, signa
     policies = {name: make_policy(a.get("policy", ["const", 0])) for name, a in sc["actors"].items()}
     rec.policy_of = lambda topic: policies[topic]
 
-    w = Worker(graceful_shutdown_time=sc["worker"].get("grace_s", 1.0), handle_signals=[],
-               tasks_limit=sc["worker"].get("tasks_limit", 1000),
-               messages_limit=sc["worker"].get("messages_limit", 0) or float("inf"),
-               router_defaults=RouterDefaults(converter=conv), _connection=conn)
+    nworkers = sc.get("nworkers", 1)
+    workers = [Worker(graceful_shutdown_time=sc["worker"].get("grace_s", 1.0), handle_signals=[],
+                      tasks_limit=sc["worker"].get("tasks_limit", 1000),
+                      messages_limit=sc["worker"].get("messages_limit", 0) or float("inf"),
+                      router_defaults=RouterDefaults(converter=conv), _connection=conn) for _ in range(nworkers)]
+    w = workers[0]
     seen_args = []
 
     def make_actor(name: str, variant: str):
@@ -230,8 +235,9 @@ async def run_worker(loop, sc: dict, make=None, projector=inmem_projector, signa
         fn.__name__ = name
         return fn
 
-    for name, a in sc["actors"].items():
-        w.actor(name=name, queue=a.get("queue", "default"), retry_policy=policies[name])(make_actor(name, a.get("variant", "plain")))
+    for wk in workers:
+        for name, a in sc["actors"].items():
+            wk.actor(name=name, queue=a.get("queue", "default"), retry_policy=policies[name])(make_actor(name, a.get("variant", "plain")))
     await w.declare_all_queues()
     for q in {j.get("queue", sc["actors"].get(j["actor"], {}).get("queue", "default")) for j in sc["jobs"]}:
         await broker.queue_declare(q)
@@ -302,6 +308,7 @@ async def run_worker(loop, sc: dict, make=None, projector=inmem_projector, signa
         def __init__(self, *a, **k):
             super().__init__(*a, **k)
             runners.append(self)
+            self.verif_wno = WNO.get()
 
     saved_runner = repid.worker._Runner
     repid.worker._Runner = RecordingRunner
@@ -312,13 +319,24 @@ async def run_worker(loop, sc: dict, make=None, projector=inmem_projector, signa
     state = {"stopped": False, "forced": False, "steps0": loop.steps, "run_steps": None}
     grace = sc["worker"].get("grace_s", 1.0)
 
-    def request_stop():
+    def request_stop(which=None):
         if state["stopped"] or not runners:
             return False
         state["stopped"] = True
         rec.emit({"e": "stop", "dl": ("us", CLOCK.us + int(grace * 1e6) + SLACK_US)})
-        runners[0].sync_stop_wait_and_cancel(grace)
+        for r in runners:
+            if which is None or r.verif_wno == which + 1:
+                r.sync_stop_wait_and_cancel(grace)
+        if which is not None:       # the other workers go on until the horizon
+            state["stopped"] = "partial"
         return True
+
+    def stop_rest():
+        if state["stopped"] == "partial":
+            state["stopped"] = True
+            for r in runners:
+                if r._wait_for_cancel_task is None and not r.stop_consume_event.is_set():
+                    r.sync_stop_wait_and_cancel(grace)
 
     prev_after = loop.after_handle
 
@@ -327,21 +345,30 @@ async def run_worker(loop, sc: dict, make=None, projector=inmem_projector, signa
         st = sc.get("stop")
         if st and not state["stopped"]:
             if "at_step" in st and loop.steps - state["steps0"] >= st["at_step"]:
-                request_stop()
+                request_stop(st.get("worker"))
             elif "at_ms" in st and CLOCK.us >= st["at_ms"] * 1000:
+                request_stop(st.get("worker"))
+        if CLOCK.us >= sc.get("horizon_ms", 60_000) * 1000:
+            if not state["stopped"]:
                 request_stop()
-        if not state["stopped"] and CLOCK.us >= sc.get("horizon_ms", 60_000) * 1000:
-            request_stop()
+            else:
+                stop_rest()
         if loop.steps - state["steps0"] > sc.get("max_steps", 300_000) and not state.get("capped"):
             state["capped"] = True          # runaway scenario (no virtual time passes): abort it
             main_task.cancel()
-        if runners and not state["forced"] and runners[0].cancel_event.is_set() and runners[0]._tasks:
+        if runners and not state["forced"] and any(r.cancel_event.is_set() and r._tasks for r in runners):
             # the cancel event only *forces* anything if processing tasks are still pending
             state["forced"] = True
             rec.emit({"e": "forced"})
     loop.after_handle = after
     run_exc = None
-    main_task = asyncio.ensure_future(asyncio.wait_for(w.run(), timeout=sc.get("horizon_ms", 60_000) / 1000 + 120))
+    async def run_one(idx):
+        WNO.set(idx + 1)
+        return await workers[idx].run()
+
+    async def run_all():
+        await asyncio.gather(*(asyncio.ensure_future(run_one(k)) for k in range(nworkers)))
+    main_task = asyncio.ensure_future(asyncio.wait_for(run_all(), timeout=sc.get("horizon_ms", 60_000) / 1000 + 120))
     try:
         try:
             await main_task
@@ -373,7 +400,8 @@ async def run_worker(loop, sc: dict, make=None, projector=inmem_projector, signa
     if late or run_exc is not None:
         rec.emit({"e": "late", "why": run_exc or "a job was not executed by the deadline"})
     rec.emit({"e": "time", "now": ("us", CLOCK.us)})
-    rec.emit({"e": "quiet", "storefault": bool(sc.get("store_fail_at"))})
+    rec.emit({"e": "quiet", "storefault": bool(sc.get("store_fail_at")),
+              "foreign": [rec.mid(j["id"]) for j in sc["jobs"] if j.get("foreign")]})
     rec.obs()
     results = {}
     if rb is not None:
